@@ -12,7 +12,46 @@ import (
 	rt "github.com/Syuparn/pangaea/zzverifrt"
 )
 
-func init() { rt.Register("H_C13_try", H_C13_try) }
+func init() {
+	rt.Register("H_C13_try", H_C13_try)
+	rt.Register("H_C13_reuse", H_C13_reuse)
+}
+
+// H_C13_reuse: an Either that is kept (bound to a name) and used as the receiver of two
+// different continuations: each continuation reports the outcome of its own calls, and
+// the kept Either keeps reporting its own.
+func H_C13_reuse() {
+	h := NewH()
+	v := rt.Int64()
+	rt.Assume(v > 2 && v < 1000)
+	h.Set("v", object.NewPanInt(v))
+	r := h.EvalNoPanic(`e := v.try; a := e.+(1); b := e.+(2); c := e.{|x| x * 2}; [a.val, b.val, c.val, e.val, a.A, e.A]`)
+	arr, ok := r.(*object.PanArr)
+	rt.Assert(ok && len(arr.Elems) == 6, "the chains must evaluate")
+	if ok && len(arr.Elems) == 6 {
+		rt.Assert(isInt(arr.Elems[0], v+1) && isInt(arr.Elems[1], v+2) && isInt(arr.Elems[2], v*2), "each continuation of a kept Either holds the result of its own step")
+		rt.Assert(isInt(arr.Elems[3], v), "a kept Either keeps holding its own value after steps were applied to it")
+		rt.Assert(arrOfIntNil(arr.Elems[4], v+1) && arrOfIntNil(arr.Elems[5], v), "A reports the single outcome of each Either")
+	}
+	r = h.EvalNoPanic(`s := v.try.{|x| x - v}; t := s.+(3); u := s.{|x| 1 / x}; [t.val, u.err?, u.val, s.val, s.err?]`)
+	arr, ok = r.(*object.PanArr)
+	rt.Assert(ok && len(arr.Elems) == 5, "the chains must evaluate")
+	if ok && len(arr.Elems) == 5 {
+		rt.Assert(isInt(arr.Elems[0], 3) && arr.Elems[1] == object.BuiltInTrue && isNil(arr.Elems[2]), "a failure in one continuation is captured by that continuation")
+		rt.Assert(isInt(arr.Elems[3], 0) && arr.Elems[4] == object.BuiltInFalse, "a kept Either is not changed by a later failing step")
+	}
+	r = h.EvalNoPanic(`f := v.try.{|x| x / 0}; g := f.+(1); k := f.catch(ZeroDivisionErr) {|q| 7}; [f.err?, g.err?, k.val, f.val, f.err?]`)
+	arr, ok = r.(*object.PanArr)
+	rt.Assert(ok && len(arr.Elems) == 5, "the chains must evaluate")
+	if ok && len(arr.Elems) == 5 {
+		rt.Assert(arr.Elems[0] == object.BuiltInTrue && arr.Elems[1] == object.BuiltInTrue && isInt(arr.Elems[2], 7) && isNil(arr.Elems[3]) && arr.Elems[4] == object.BuiltInTrue, "a kept failed Either keeps its error whatever is derived from it")
+	}
+}
+
+func arrOfIntNil(o object.PanObject, v int64) bool {
+	a, ok := o.(*object.PanArr)
+	return ok && len(a.Elems) == 2 && isInt(a.Elems[0], v) && isNil(a.Elems[1])
+}
 
 var c13Kinds = []string{"ValueErr", "TypeErr", "ZeroDivisionErr", "NameErr", "NoPropErr", "AssertionErr"}
 
